@@ -278,8 +278,11 @@ func main() {
 					if err != nil {
 						return err
 					}
-					for _, t := range perm {
-						rec, err := wtxmgr.NewTxRecordFromMsgTx(txs[t], time.Unix(int64(1_650_000_000+t), 0))
+					for pos, t := range perm {
+						// the time a transaction was first seen is unrelated to the spend graph (block header
+						// times, reorgs): the received time follows the random insertion order, so children are
+						// as often older than their parents as younger
+						rec, err := wtxmgr.NewTxRecordFromMsgTx(txs[t], time.Unix(int64(1_650_000_000+600*pos), 0))
 						if err != nil {
 							return err
 						}
